@@ -187,6 +187,12 @@ fn cmd_sweep(args: &[String]) -> i32 {
     if let Some(b) = arg(args, "--bounds") {
         pl.bounds = parse_bounds(&b);
     }
+    // the second build profile of the thorough tier leaves out the largest bounds (they take as long as
+    // all the rest together and differ from the release run only in the library's debug assertions)
+    if flag(args, "--light") && tier != "quick" && arg(args, "--bounds").is_none() {
+        let heavy_judges = matches!(prop.as_str(), "C08" | "C13" | "C16");
+        pl.bounds.retain(|b| !matches!(b, (5, 7) | (6, 6)) && !(heavy_judges && *b == (4, 7)));
+    }
     let known = known::Known::load(&format!("{VERIF}/known_findings.jsonl"));
     let cap_s: u64 = arg(args, "--cap-s")
         .and_then(|s| s.parse().ok())
@@ -390,10 +396,13 @@ fn cmd_sweep(args: &[String]) -> i32 {
     let mut extra = json!({"model_free_closure": free_json});
     if prop == "C13" && !reports.iter().any(|r| r.violations.iter().any(|v| !v.known)) {
         let (n, a) = if tier == "quick" { (3, 5) } else { (4, 6) };
+        // (these runs are compared by their digest streams only — outcome and arena after every call —
+        // so the per-state judges of C13, which the main sweep has applied, are not repeated in them)
+        let light_judge = JudgeCfg { target: 0, double_exec: false, clear_depth: 0, ..pl.judge.clone() };
         let mk = |init: Init| RunCfg {
             n, a,
             profile: pl.profile,
-            judge: pl.judge.clone(),
+            judge: light_judge.clone(),
             inits: vec![init],
             threads: threads(),
             deadline: Some(stage_deadline()),
@@ -817,7 +826,7 @@ fn cmd_readers(args: &[String]) -> i32 {
     let plans: Vec<(usize, usize, usize, usize)> = if q {
         vec![(3, 3, 2, 4)]
     } else {
-        vec![(4, 4, 2, 5), (3, 3, 3, 3)]
+        vec![(4, 4, 2, 4), (3, 3, 3, 3)]
     };
     let mut tot_states = 0u64;
     let mut tot_steps = 0u64;
